@@ -1,11 +1,11 @@
 package s0172
 
 type G1 struct {
-	F2x0 *uint32
+	F2x0 uint32
 }
 
 type T struct {
-	F0 int32
+	F0 *int32
 	F1 int64
-	F2 []G1
+	F2 G1
 }
